@@ -53,11 +53,14 @@ func (c *Contract) clauseMode(cl *Clause) string {
 	if cl.Mode == "any" {
 		return curModeName() // mode-neutral clause: compiled in whatever mode the current VC uses
 	}
+	if cl.Mode == "ringax" {
+		return "ring" // ring-level statement about a leaf field operation (justified by the L1->L2 meta-theorem)
+	}
 	if cl.Mode != "" {
 		return cl.Mode
 	}
-	if c.Mode == "int" {
-		return "int"
+	if c.Mode == "int" || c.Mode == "ring" {
+		return c.Mode
 	}
 	return "bv"
 }
@@ -65,14 +68,14 @@ func (c *Contract) clauseMode(cl *Clause) string {
 // modes returns the VC modes in which the function must be verified (its own mode first).
 func (c *Contract) modes() []string {
 	own := "bv"
-	if c.Mode == "int" {
-		own = "int"
+	if c.Mode == "int" || c.Mode == "ring" {
+		own = c.Mode
 	}
 	out := []string{own}
 	other := map[string]bool{}
 	for _, lst := range [][]*Clause{c.Requires, c.Ensures, c.PanicsIf} {
 		for _, cl := range lst {
-			if cl.Mode == "any" {
+			if cl.Mode == "any" || cl.Mode == "ringax" {
 				continue
 			}
 			if m := c.clauseMode(cl); m != own {
@@ -202,9 +205,13 @@ func (e *Engine) loadContractFile(path string, pkg *ssa.Package) error {
 			cl.Mode, cl.Label = "bv", cl.Label[3:]
 		} else if strings.HasPrefix(cl.Label, "int:") {
 			cl.Mode, cl.Label = "int", cl.Label[4:]
+		} else if strings.HasPrefix(cl.Label, "ringax:") {
+			cl.Mode, cl.Label = "ringax", cl.Label[7:]
+		} else if strings.HasPrefix(cl.Label, "ring:") {
+			cl.Mode, cl.Label = "ring", cl.Label[5:]
 		} else if strings.HasPrefix(cl.Label, "any:") {
 			cl.Mode, cl.Label = "any", cl.Label[4:]
-		} else if cl.Label == "bv" || cl.Label == "int" || cl.Label == "any" {
+		} else if cl.Label == "bv" || cl.Label == "int" || cl.Label == "any" || cl.Label == "ring" || cl.Label == "ringax" {
 			cl.Mode, cl.Label = cl.Label, ""
 		}
 		return cl, nil
@@ -479,6 +486,9 @@ func (e *Engine) loadExtraContracts(dir string) error {
 }
 
 func curModeName() string {
+	if genRingMode {
+		return "ring"
+	}
 	if genIntMode {
 		return "int"
 	}
